@@ -733,6 +733,35 @@ async fn h2_bichannel_round(seed: u64, rep: &mut Report) {
     }
 }
 
+/// Many short connections ended by the peer's close(code, reason) with three calls parked: which
+/// of the driver's select! branches notices the end first is random per connection, so a branch
+/// that names the wrong cause shows only in a fraction of them.
+async fn rapid_peer_close(n: usize, rep: &mut Report) {
+    for i in 0..n {
+        let observe_client = i % 2 == 0;
+        rep.eval(format!("rapid-peer-close|observed={}", if observe_client { "client" } else { "server" }));
+        let pair = match ends::pair(PairOpts::default()).await {
+            Ok(p) => p,
+            Err(e) => {
+                rep.inconclusive(format!("rapid-peer-close: {e}"));
+                continue;
+            }
+        };
+        let (me, peer) = if observe_client { (pair.cconn.clone(), pair.sconn.clone()) } else { (pair.sconn.clone(), pair.cconn.clone()) };
+        let (a, b, c) = (me.clone(), me.clone(), me.clone());
+        let parked = vec![
+            Parked { name: "accept_uni", handle: tokio::spawn(async move { match a.accept_uni().await { Ok(_) => Res::Ok("stream".into()), Err(e) => Res::Conn(conn_err(&e)) } }) },
+            Parked { name: "accept_bi", handle: tokio::spawn(async move { match b.accept_bi().await { Ok(_) => Res::Ok("stream".into()), Err(e) => Res::Conn(conn_err(&e)) } }) },
+            Parked { name: "receive_datagram", handle: tokio::spawn(async move { match c.receive_datagram().await { Ok(_) => Res::Ok("datagram".into()), Err(e) => Res::Conn(conn_err(&e)) } }) },
+        ];
+        tokio::time::sleep(ms(5 + (i as u64 % 4) * 3)).await;
+        peer.close(VarInt::try_from_u64(CODE).unwrap(), REASON);
+        let mut results = collect(parked).await;
+        results.push(("later closed", match within(BOUND, me.closed()).await { Waited::Done(e) => Res::Conn(conn_err(&e)), Waited::TimedOut => Res::Hung }));
+        judge(rep, Cause::PeerQuicClose, if observe_client { "client" } else { "server" }, &results, "rapid-peer-close");
+    }
+}
+
 pub fn run(args: &Args) -> Report {
     let mut rep = Report::new();
     // debugging aid: NETMON_C09_FOCUS="IdleTimeout,client,Uni,20" runs one pair scenario repeatedly
@@ -808,6 +837,7 @@ pub fn run(args: &Args) -> Report {
                         Err(_) => rep.inconclusive("scenario task died"),
                     }
                 }
+                rapid_peer_close(if args.thorough { 60 } else { 40 }, &mut rep).await;
                 // task accounting needs a quiet runtime: run alone
                 for role in [Role::Server, Role::Client] {
                     drop_all_handles(role, &mut rep).await;
